@@ -604,6 +604,7 @@ impl AssemblyCode {
                             flags = FlagsState::Y;
                         }
                         AsmMnemonic::DEC | AsmMnemonic::INC => {
+                            flags = FlagsState::Unknown;
                             if let Some(v) = &accumulator {
                                 if v.eq(&inst.dasm_operand) {
                                     accumulator = None;
@@ -621,6 +622,7 @@ impl AssemblyCode {
                             }
                         }
                         AsmMnemonic::INX | AsmMnemonic::DEX => {
+                            flags = FlagsState::Unknown;
                             if let Some(v) = &accumulator {
                                 if v.ends_with(",X") {
                                     accumulator = None;
@@ -634,6 +636,7 @@ impl AssemblyCode {
                             x_register = None;
                         }
                         AsmMnemonic::INY | AsmMnemonic::DEY => {
+                            flags = FlagsState::Unknown;
                             if let Some(v) = &accumulator {
                                 if v.ends_with(",Y") {
                                     accumulator = None;
@@ -702,7 +705,19 @@ impl AssemblyCode {
                         | AsmMnemonic::EOR
                         | AsmMnemonic::AND
                         | AsmMnemonic::ORA => accumulator = None,
-                        AsmMnemonic::LSR | AsmMnemonic::ASL => accumulator = None,
+                        AsmMnemonic::LSR | AsmMnemonic::ASL | AsmMnemonic::ROL | AsmMnemonic::ROR => {
+                            accumulator = None;
+                            if let Some(v) = &x_register {
+                                if v.eq(&inst.dasm_operand) {
+                                    x_register = None;
+                                }
+                            }
+                            if let Some(v) = &y_register {
+                                if v.eq(&inst.dasm_operand) {
+                                    y_register = None;
+                                }
+                            }
+                        }
                         AsmMnemonic::PLA | AsmMnemonic::PHA => accumulator = None,
                         AsmMnemonic::JSR | AsmMnemonic::JMP => {
                             accumulator = None;
